@@ -1,0 +1,27 @@
+//go:build verif
+
+package gnosisaccessnode
+
+import (
+	"context"
+
+	syncevent "github.com/shutter-network/rolling-shutter/rolling-shutter/medley/chainsync/event"
+)
+
+// VerifOnNewKeyperSet calls the unexported onNewKeyperSet, the callback the chain sync client
+// runs for a keyper set event.
+func (node *GnosisAccessNode) VerifOnNewKeyperSet(ctx context.Context, keyperSet *syncevent.KeyperSet) error {
+	return node.onNewKeyperSet(ctx, keyperSet)
+}
+
+// VerifOnNewEonKey calls the unexported onNewEonKey, the callback the chain sync client runs
+// for an eon key broadcast.
+func (node *GnosisAccessNode) VerifOnNewEonKey(ctx context.Context, eonKey *syncevent.EonPublicKey) error {
+	return node.onNewEonKey(ctx, eonKey)
+}
+
+// VerifDecryptionKeysHandler builds the message handler over the node's config and storage, as
+// Start does.
+func (node *GnosisAccessNode) VerifDecryptionKeysHandler() *DecryptionKeysHandler {
+	return NewDecryptionKeysHandler(node.config, node.storage)
+}
